@@ -17,6 +17,11 @@ pub use check::*;
 
 mod analysis;
 pub use analysis::*;
+
+#[cfg(slotted_egraphs_verif)]
+mod verif_snapshot;
+#[cfg(slotted_egraphs_verif)]
+pub use verif_snapshot::*;
 use vec_collections::AbstractVecSet;
 
 use std::cell::RefCell;
